@@ -79,7 +79,7 @@ def main(argv):
                 if os.path.exists(os.path.join(out, 'notes.md')):
                     shutil.copy(os.path.join(out, 'notes.md'), os.path.join(dst, 'author_notes.md'))
                 meta = {
-                    'property': cid,
+                    'property': cid[:3],
                     'origin': 'written by an independent sub-agent that was given only the text of the property and a scratch git '
                               'worktree of /repo (nothing from /verif); round ' + label,
                     'what_it_changes': what,
@@ -95,7 +95,7 @@ def main(argv):
                     },
                     'checks_that_fire_quick_tier': fired,
                     'first_mechanisms': {c: r['checks'][c]['mechanisms'][:2] for c in fired},
-                    'caught_by_own_property_check': cid in fired,
+                    'caught_by_own_property_check': cid[:3] in fired,
                 }
                 with open(os.path.join(dst, 'meta.json'), 'w') as f:
                     json.dump(meta, f, indent=1)
@@ -109,12 +109,12 @@ def main(argv):
              '| seeded defect | confirmed | own check fires | all checks that fire | what it changes | needs |',
              '|---|---|---|---|---|---|']
     for name, cid, confirmed, fired, odd, what, needs, r in rows:
-        lines.append('| %s | %s | %s | %s%s%s | %s | %s |' % (name, 'yes' if confirmed else 'NO', 'yes' if cid in fired else '**no**',
+        lines.append('| %s | %s | %s | %s%s%s | %s | %s |' % (name, 'yes' if confirmed else 'NO', 'yes' if cid[:3] in fired else '**no**',
                                                          ' '.join(fired) or '-', '' if r.get('other_checks_evaluated') else ' (own check only)',
                                                          (' (other exit: %s)' % odd) if odd else '',
                                                          what.replace('|', '/'), needs.replace('|', '/')))
     n_conf = sum(1 for r in rows if r[2])
-    n_own = sum(1 for r in rows if r[2] and r[1] in r[3])
+    n_own = sum(1 for r in rows if r[2] and r[1][:3] in r[3])
     n_any = sum(1 for r in rows if r[2] and r[3])
     lines += ['', 'confirmed: %d of %d; caught by the property\'s own check: %d; caught by at least one check: %d' % (n_conf, len(rows), n_own, n_any)]
     with open(os.path.join(HERE, 'KILLMATRIX.md'), 'w') as f:
